@@ -273,7 +273,7 @@ def concrete(case):
         A.verify_root, A.verify_delegation = mkstub('verify_root'), mkstub('verify_delegation')
         try:
             def content(kind, doc):
-                return {'json': lambda: C.canonserialize(from_wire(doc)), 'notjson': lambda: b'{not json', 'missing': lambda: None}[kind]()
+                return {'json': lambda: CC.ref_canon(from_wire(doc)), 'notjson': lambda: b'{not json', 'missing': lambda: None}[kind]()
             import io
             buf = io.StringIO()
             with CC.temp_files({'trusted.json': content(case['tcont'], case['tdoc']), 'untrusted.json': content(case['ucont'], case['udoc'])}) as paths:
